@@ -9,6 +9,8 @@
 (*                     the conditional-Gaussian update, covariance invariants,  *)
 (*                     block layout of the assembly functions                   *)
 (*  Part C (MathComp)  Tier B: the recursion equals the one-shot weighted       *)
+(*  Part D (MathComp)  ... also for SINGULAR process noise Qd = Gam Gam^T (noise-  *)
+(*                     parametrised batch problem, Phi invertible)              *)
 (*                     least-squares (Gauss-Markov) solution, positive-definite *)
 (*                     data, any number of stages                               *)
 (* ------------------------------------------------------------------------- *)
@@ -1077,4 +1079,327 @@ move=> mdim Hf Rf chol; split=> [k|k|k m P _ _].
 - by apply: pd_scalar; rewrite ltr01.
 - rewrite /h_full row_mx0 correct_S_eq /innov_cov !mul0mx add0r.
   by split; [exact: is_lower_scalar | rewrite mul1mx trmx1].
+Qed.
+
+(* ========================================================================= *)
+(*  Part D : singular process noise -- the noise-parametrised batch problem   *)
+(* ========================================================================= *)
+Section GramFacts.
+Variable F : realFieldType.
+
+Lemma psd_gram (n p : nat) (G : 'M[F]_(n, p)) : psd (G *m G^T).
+Proof.
+have := @psd_conj F _ _ (1%:M : 'M[F]_p) G (@psd_scalar F p 1 ler01).
+by rewrite mulmx1.
+Qed.
+
+Lemma sym_gram (n p : nat) (G : 'M[F]_(n, p)) : (G *m G^T)^T = G *m G^T.
+Proof. by rewrite trmx_mul trmxK. Qed.
+
+(* a congruence by an invertible matrix keeps positive definiteness *)
+Lemma pd_conj_unit (n : nat) (Phi P : 'M[F]_n) : Phi \in unitmx -> pd P -> pd (Phi *m P *m Phi^T).
+Proof.
+move=> uPhi pP x nz.
+have nz' : Phi^T *m x != 0.
+  apply: contra nz => /eqP e.
+  have uT : Phi^T \in unitmx by rewrite unitmx_tr.
+  by rewrite -[x]mul1mx -(mulVmx uT) -mulmxA e mulmx0.
+by have := pP _ nz'; rewrite trmx_mul trmxK !mulmxA.
+Qed.
+
+(* S = Phi P Phi^T + Gam Gam^T is positive definite for invertible Phi, PD P and ANY Gam *)
+Lemma prop_cov_pd (n p : nat) (Phi P : 'M[F]_n) (Gam : 'M[F]_(n, p)) :
+  Phi \in unitmx -> pd P -> pd (Phi *m P *m Phi^T + Gam *m Gam^T).
+Proof.
+move=> uPhi pP; rewrite addrC; apply: pd_add_psd; first exact: psd_gram.
+exact: pd_conj_unit.
+Qed.
+
+Lemma quad_tr (k : nat) (A : 'M[F]_k) (u v : 'cV[F]_k) :
+  A^T = A -> v^T *m A *m u = (u^T *m A *m v)^T.
+Proof. by move=> sA; rewrite !trmx_mul trmxK sA mulmxA. Qed.
+
+Lemma dot_tr (k : nat) (u v : 'cV[F]_k) : v^T *m u = (u^T *m v)^T.
+Proof. by rewrite trmx_mul trmxK. Qed.
+
+Lemma zmod_arith2 (V : zmodType) (t1 t2 u1 u2 v1 v2 q1 q2 : V) :
+  t1 + (u1 + u2) + q1 + (t2 + (v1 + v2) + q2) = t1 + t2 + ((u1 + v1) + (u2 + v2)) + (q1 + q2).
+Proof. by rewrite addrACA (addrACA t1) (addrACA u1). Qed.
+
+Lemma qform1 (p : nat) (w : 'cV[F]_p) : qform 1%:M w = (w^T *m w) 0 0.
+Proof. by rewrite /qform mulmx1. Qed.
+End GramFacts.
+
+(* ---- the constrained completing-the-square identity of the propagation step ---- *)
+Section PropIdentity.
+Variable F : realFieldType.
+Variables n p : nat.
+Variables (P Phi : 'M[F]_n) (Gam : 'M[F]_(n, p)).
+Hypothesis sP : P^T = P.
+Hypothesis pP : pd P.
+Hypothesis uPhi : Phi \in unitmx.
+
+Local Notation S := (Phi *m P *m Phi^T + Gam *m Gam^T).
+Let uP := pd_unitmx pP.
+
+Lemma prop_S_pd : pd S.
+Proof. exact: prop_cov_pd. Qed.
+
+Lemma prop_S_sym : S^T = S.
+Proof. by rewrite trmx_add !trmx_mul !trmxK sP mulmxA. Qed.
+
+Lemma prop_uS : S \in unitmx.
+Proof. exact: pd_unitmx prop_S_pd. Qed.
+
+(* the minimiser of |d|^2_{P^-1} + |w|^2 subject to Phi d + Gam w = r *)
+Definition prop_dopt (r : 'cV[F]_n) : 'cV[F]_n := P *m Phi^T *m invmx S *m r.
+Definition prop_wopt (r : 'cV[F]_n) : 'cV[F]_p := Gam^T *m invmx S *m r.
+
+Lemma prop_opt_feasible r : Phi *m prop_dopt r + Gam *m prop_wopt r = r.
+Proof.
+by rewrite /prop_dopt /prop_wopt !mulmxA -mulmxDl -mulmxDl (mulmxV prop_uS) mul1mx.
+Qed.
+
+(* matrix (1 x 1) form *)
+Lemma prop_identity_mx (d : 'cV[F]_n) (w : 'cV[F]_p) (r : 'cV[F]_n) :
+  Phi *m d + Gam *m w = r ->
+  d^T *m invmx P *m d + w^T *m w =
+  r^T *m invmx S *m r
+  + ((d - prop_dopt r)^T *m invmx P *m (d - prop_dopt r) + (w - prop_wopt r)^T *m (w - prop_wopt r)).
+Proof.
+move=> cons.
+set a := prop_dopt r; set b := prop_wopt r; set e := d - a; set f := w - b.
+have uS := prop_uS; have sSi : (invmx S)^T = invmx S := invmx_sym prop_S_sym.
+have sPi : (invmx P)^T = invmx P := invmx_sym sP.
+have ef0 : Phi *m e + Gam *m f = 0.
+  rewrite /e /f !mulmxBr addrACA cons -opprD prop_opt_feasible subrr. by [].
+have -> : d = a + e by rewrite /e addrC subrK.
+have -> : w = b + f by rewrite /f addrC subrK.
+rewrite quad_shift.
+have -> : (b + f)^T *m (b + f) = b^T *m b + (b^T *m f + f^T *m b) + f^T *m f.
+  by rewrite trmx_add !mulmxDl !mulmxDr !addrA.
+(* the row vectors a^T P^-1 and b^T *)
+have aP : a^T *m invmx P = r^T *m invmx S *m Phi.
+  rewrite /a /prop_dopt !trmx_mul trmxK sP sSi !mulmxA. by rewrite -(mulmxA _ P (invmx P)) (mulmxV uP) mulmx1.
+have bT : b^T = r^T *m invmx S *m Gam.
+  by rewrite /b /prop_wopt !trmx_mul trmxK sSi !mulmxA.
+(* cross terms vanish *)
+have c1 : a^T *m invmx P *m e + b^T *m f = 0.
+  by rewrite aP bT -!mulmxA -mulmxDr -mulmxDr ef0 !mulmx0.
+have c2 : e^T *m invmx P *m a + f^T *m b = 0.
+  have t1 : e^T *m invmx P *m a = (a^T *m invmx P *m e)^T := quad_tr a e sPi.
+  have t2 : f^T *m b = (b^T *m f)^T := dot_tr b f.
+  by rewrite t1 t2 -trmx_add c1 trmx0.
+(* the squares of the optimum add up to r^T S^-1 r *)
+have sq : a^T *m invmx P *m a + b^T *m b = r^T *m invmx S *m r.
+  by rewrite aP bT -(mulmxA _ Phi a) -(mulmxA _ Gam b) -mulmxDr /a /b prop_opt_feasible.
+set t1 := a^T *m invmx P *m a; set t2 := b^T *m b.
+set u1 := a^T *m invmx P *m e; set u2 := e^T *m invmx P *m a; set v1 := b^T *m f; set v2 := f^T *m b.
+set q1 := e^T *m invmx P *m e; set q2 := f^T *m f.
+rewrite -sq -/t1 -/t2.
+rewrite (zmod_arith2 t1 t2 u1 u2 v1 v2 q1 q2).
+by rewrite /u1 /v1 /u2 /v2 c1 c2 !addr0.
+Qed.
+
+(* PROPAGATION IDENTITY: for every (d, w) with Phi d + Gam w = r,
+   |d|^2_{P^-1} + |w|^2 = r^T S^-1 r + |d - d*|^2_{P^-1} + |w - w*|^2 *)
+Theorem prop_identity (d : 'cV[F]_n) (w : 'cV[F]_p) (r : 'cV[F]_n) :
+  Phi *m d + Gam *m w = r ->
+  qform (invmx P) d + qform 1%:M w =
+  qform (invmx S) r + (qform (invmx P) (d - prop_dopt r) + qform 1%:M (w - prop_wopt r)).
+Proof.
+move=> cons; rewrite !qform1 /qform.
+transitivity ((d^T *m invmx P *m d + w^T *m w) 0 0); first by rewrite [RHS]mxE.
+by rewrite (prop_identity_mx cons) [LHS]mxE; congr (_ + _); rewrite [LHS]mxE.
+Qed.
+End PropIdentity.
+
+(* ---- N stages with merely PSD process noise Qd_k = Gam_k Gam_k^T ------------------- *)
+Section NoiseStage.
+Variable F : realFieldType.
+Variables n p : nat.
+Variable md : nat -> nat.
+Variable zs : forall k : nat, 'cV[F]_(md k).
+Variable Hs : forall k : nat, 'M[F]_(md k, n).
+Variable Rs : forall k : nat, 'M[F]_(md k).
+Variable Phis : nat -> 'M[F]_n.
+Variable Gams : nat -> 'M[F]_(n, p).
+Variable chols : forall k : nat, 'M[F]_(md k) -> 'M[F]_(md k).
+Variables (xb : 'cV[F]_n) (P0 : 'M[F]_n).
+
+Hypothesis sP0 : P0^T = P0.
+Hypothesis pP0 : pd P0.
+Hypothesis R_sym : forall k, (Rs k)^T = Rs k.
+Hypothesis R_pd : forall k, pd (Rs k).
+Hypothesis Phi_unit : forall k, Phis k \in unitmx.
+
+Local Notation Qds := (gram_Qd Gams).
+Local Notation run N := (@kf_run F n md zs Hs Rs Phis Qds chols N (xb, P0)).
+Local Notation xs := (nstate Phis Gams).
+Local Notation J := (noise_cost zs Hs Rs Phis Gams xb P0).
+Local Notation icost := (innov_cost zs Hs Rs Phis Qds chols xb P0).
+Local Notation cok := (chol_ok zs Hs Rs Phis Qds chols xb P0).
+
+Lemma nstate_ext x0 (w w' : nat -> 'cV[F]_p) k :
+  (forall j, (j < k)%N -> w j = w' j) -> xs x0 w k = xs x0 w' k.
+Proof.
+elim: k => [|k IH] ext //=.
+by rewrite IH ?ext // => j lt; apply: ext; apply: leqW.
+Qed.
+
+Lemma noise_cost_ext N x0 (w w' : nat -> 'cV[F]_p) :
+  (forall j, (j < N)%N -> w j = w' j) -> J N x0 w = J N x0 w'.
+Proof.
+elim: N => [|N IH] ext //=.
+rewrite IH; last by move=> j lt; apply: ext; apply: leqW.
+rewrite (@nstate_ext x0 w w' N); last by move=> j lt; apply: ext; apply: leqW.
+by rewrite ext.
+Qed.
+
+Lemma chain_le (c A B C I E D G JN : F) :
+  c + A <= JN -> A + B = I + E -> E + C = D + G -> 0 <= G -> c + I + D <= JN + B + C.
+Proof.
+move=> h1 e1 e2 g0.
+apply: (@le_trans _ _ (c + A + B + C)); last by rewrite !ler_add2r.
+have -> : c + A + B + C = c + I + D + G by rewrite -(addrA c A) e1 -!addrA e2 !addrA.
+by rewrite ler_addl.
+Qed.
+
+Definition nstage_ok (N : nat) : Prop :=
+  [/\ (run N).2^T = (run N).2, pd (run N).2,
+      forall x0 w, icost N + qform (invmx (run N).2) (xs x0 w N - (run N).1) <= J N x0 w
+    & forall y, exists x0 w, xs x0 w N = y /\
+                             J N x0 w = icost N + qform (invmx (run N).2) (y - (run N).1)].
+
+Lemma nstage_ok_all N : (forall k, (k < N)%N -> cok k) -> nstage_ok N.
+Proof.
+elim: N => [_|N IH ck].
+  split=> //= [x0 w|y]; first by rewrite add0r.
+  by exists y, (fun=> 0); rewrite add0r.
+have [sP pP lb att] : nstage_ok N by apply: IH => k lt; apply: ck; apply: leqW.
+have cN : cok N by apply: ck.
+set xh := (run N).1 in lb att *; set P := (run N).2 in sP pP lb att *.
+pose xc := cond_mean xh P (zs N) (Hs N) (Rs N).
+pose Pc := cond_cov P (Hs N) (Rs N).
+have sPc : Pc^T = Pc := key_cov_sym (Hs N) sP pP (R_sym N) (@R_pd N).
+have pPc : pd Pc := key_cov_pd (Hs N) sP pP (R_sym N) (@R_pd N).
+have iPc : invmx Pc = info_mx P (Hs N) (Rs N) := key_inv_cov (Hs N) sP pP (R_sym N) (@R_pd N).
+have eqrun : run N.+1 = (Phis N *m xc, Phis N *m Pc *m (Phis N)^T + Gams N *m (Gams N)^T).
+  exact: (run_step R_sym R_pd cN sP pP).
+have sPn : (run N.+1).2^T = (run N.+1).2.
+  by rewrite eqrun /=; apply: prop_S_sym.
+have pPn : pd (run N.+1).2.
+  by rewrite eqrun /=; apply: prop_cov_pd.
+have kmeas u : qform (invmx P) (u - xh) + qform (invmx (Rs N)) (zs N - Hs N *m u) =
+               qform (invmx (innov_cov P (Hs N) (Rs N))) (zs N - Hs N *m xh) + qform (invmx Pc) (u - xc).
+  by rewrite iPc; apply: (key_identity xh (zs N) (Hs N) sP pP (R_sym N) (@R_pd N) u).
+have kprop u ww : qform (invmx Pc) (u - xc) + qform 1%:M ww =
+     qform (invmx (run N.+1).2) (Phis N *m u + Gams N *m ww - (run N.+1).1) +
+     (qform (invmx Pc) (u - xc - prop_dopt Pc (Phis N) (Gams N) (Phis N *m u + Gams N *m ww - Phis N *m xc)) +
+      qform 1%:M (ww - prop_wopt Pc (Phis N) (Gams N) (Phis N *m u + Gams N *m ww - Phis N *m xc))).
+  rewrite eqrun /=; apply: (prop_identity sPc pPc (Phi_unit N)).
+  by rewrite mulmxBr addrAC.
+have q1_ge0 (v : 'cV[F]_p) : 0 <= qform 1%:M v.
+  by apply: (@psd_scalar F p 1 ler01).
+have qPc_ge0 (v : 'cV[F]_n) : 0 <= qform (invmx Pc) v.
+  exact: (pd_psd (pd_inv sPc pPc)).
+split=> // [x0 w|y].
+- (* lower bound *)
+  rewrite [J N.+1 x0 w]/= [icost N.+1]/= -/xh -/P.
+  apply: (chain_le (lb x0 w) (kmeas (xs x0 w N)) (kprop (xs x0 w N) (w N))).
+  by apply: addr_ge0.
+- (* attained *)
+  pose r := y - Phis N *m xc.
+  have [us us_def] : exists us, us = xc + prop_dopt Pc (Phis N) (Gams N) r by eexists.
+  have [ws ws_def] : exists ws, ws = prop_wopt Pc (Phis N) (Gams N) r by eexists.
+  have feas : Phis N *m us + Gams N *m ws = y.
+    rewrite us_def ws_def mulmxDr -addrA (prop_opt_feasible (Gams N) pPc (Phi_unit N)) /r addrC subrK. by [].
+  have [x0 [w' [xN cost']]] := att us.
+  pose w := fun k => if (k < N)%N then w' k else ws.
+  have wN : w N = ws by rewrite /w ltnn.
+  have xsN : xs x0 w N = us by rewrite -xN; apply: nstate_ext => j lt; rewrite /w lt.
+  exists x0, w; split; first by rewrite /= xsN wN.
+  rewrite [J N.+1 x0 w]/= [icost N.+1]/= -/xh -/P xsN wN.
+  rewrite (@noise_cost_ext N x0 w w'); last by move=> j lt; rewrite /w lt.
+  rewrite cost'.
+  have k2 := kprop us ws; rewrite feas -/r in k2.
+  have z1 : us - xc - prop_dopt Pc (Phis N) (Gams N) r = 0 by rewrite us_def [xc + _]addrC addrK subrr.
+  have z2 : ws - prop_wopt Pc (Phis N) (Gams N) r = 0 by rewrite ws_def subrr.
+  rewrite z1 z2 !qform0 !addr0 in k2.
+  exact: chain_eq (kmeas us) k2.
+Qed.
+
+(* Tier B for the REAL class of systems: P0, R_k symmetric positive definite, Phi_k invertible, Gam_k
+   ARBITRARY (Qd_k = Gam_k Gam_k^T only PSD, any rank, also 0).  The batch problem has the free variables
+   (x_0, w_0 .. w_{N-1}); its objective uses no inverse of Qd.  The cost-to-arrive at x_N = y is
+   (sum of squared normalised innovations) + |y - xN|^2_{PN^-1} with (xN, PN) the state of the recursion of
+   the generated code: xN is the final state of every minimiser, PN^-1 its information matrix. *)
+Theorem kalman_eq_batch_singular_noise N :
+  (forall k, (k < N)%N -> cok k) ->
+  let xN := (run N).1 in let PN := (run N).2 in
+  [/\ PN^T = PN /\ pd PN,
+      forall x0 w, icost N + qform (invmx PN) (xs x0 w N - xN) <= J N x0 w,
+      forall y, exists x0 w, xs x0 w N = y /\ J N x0 w = icost N + qform (invmx PN) (y - xN),
+      (forall x0 w, icost N <= J N x0 w) /\ (exists x0 w, xs x0 w N = xN /\ J N x0 w = icost N)
+    & forall x0 w, J N x0 w = icost N -> xs x0 w N = xN].
+Proof.
+move=> ck; have [sP pP lb att] := nstage_ok_all ck.
+have pPi : pd (invmx (run N).2) := pd_inv sP pP.
+split=> //.
+- split.
+  + move=> x0 w; apply: le_trans (lb x0 w); rewrite ler_addl; exact: (pd_psd pPi).
+  + have [x0 [w [xN cx]]] := att (run N).1; exists x0, w; split=> //.
+    by rewrite cx subrr qform0 addr0.
+- move=> x0 w cx; have := lb x0 w; rewrite cx ger_addl => le0.
+  by apply/eqP; rewrite -subr_eq0; apply/eqP; apply: (pd_pos_or_eq pPi).
+Qed.
+End NoiseStage.
+
+(* non-vacuity with a SINGULAR process noise: two states, the noise drives only the first one
+   (Gam = (1; 0): rank 1 < 2, Qd = Gam Gam^T singular), one stage: P0 = 3 I, H = (1 0), R = 1 (S = 4, L = 2),
+   Phi = I *)
+Lemma example_batch_singular (F : realFieldType) :
+  let md := fun _ : nat => 1%N in
+  let zs := fun _ : nat => (0 : 'cV[F]_1) in
+  let Hs := fun _ : nat => (row_mx 1%:M 0 : 'M[F]_(1, 1 + 1)) in
+  let Rs := fun _ : nat => (1%:M : 'M[F]_1) in
+  let Phis := fun _ : nat => (1%:M : 'M[F]_(1 + 1)) in
+  let Gams := fun _ : nat => (col_mx 1%:M 0 : 'M[F]_(1 + 1, 1)) in
+  let chols := fun (_ : nat) (_ : 'M[F]_1) => (2%:R%:M : 'M[F]_1) in
+  let P0 : 'M[F]_(1 + 1) := 3%:R%:M in
+  [/\ P0^T = P0 /\ pd P0, (forall k, (Rs k)^T = Rs k) /\ (forall k, pd (Rs k)),
+      forall k, Phis k \in unitmx,
+      forall k, (\rank (Gams k) < 1 + 1)%N /\ (\rank (gram_Qd Gams k) < 1 + 1)%N
+    & forall k, (k < 1)%N -> @chol_ok F (1 + 1) md zs Hs Rs Phis (gram_Qd Gams) chols 0 P0 k].
+Proof.
+move=> md zs Hs Rs Phis Gams chols P0; split.
+- by split; [rewrite /P0 tr_scalar_mx | apply: pd_scalar; rewrite ltr0n].
+- by split=> k; [rewrite trmx1 | apply: pd_scalar; rewrite ltr01].
+- by move=> k; rewrite unitmx1.
+- move=> k; have r1 : (\rank (Gams k) <= 1)%N by apply: rank_leq_col.
+  split; first exact: leq_ltn_trans r1 _.
+  by apply: leq_ltn_trans (mxrankM_maxl _ _) _; apply: leq_ltn_trans r1 _.
+- case=> // _; rewrite /chol_ok /= correct_S_eq /innov_cov /P0.
+  have -> : (row_mx 1%:M 0 : 'M[F]_(1, 1 + 1)) *m (3%:R)%:M *m (row_mx 1%:M 0 : 'M[F]_(1, 1 + 1))^T + 1%:M
+            = (4%:R)%:M :> 'M[F]_1.
+    rewrite mul_mx_scalar -scalemxAl tr_row_mx mul_row_col trmx1 mulmx1 trmx0 mulmx0 addr0.
+    by rewrite scalemx1 -raddfD /= -[1]/(1%:R) -natrD.
+  split; first exact: is_lower_scalar.
+  by rewrite tr_scalar_mx -scalar_mxM -natrM.
+Qed.
+
+(* the propagation step in one statement *)
+Lemma prop_identity_full (F : realFieldType) (n p : nat) (P Phi : 'M[F]_n) (Gam : 'M[F]_(n, p)) :
+  P^T = P -> pd P -> Phi \in unitmx ->
+  pd (Phi *m P *m Phi^T + Gam *m Gam^T) /\
+  (forall r : 'cV[F]_n, Phi *m prop_dopt P Phi Gam r + Gam *m prop_wopt P Phi Gam r = r) /\
+  forall (d : 'cV[F]_n) (w : 'cV[F]_p) (r : 'cV[F]_n),
+  Phi *m d + Gam *m w = r ->
+  qform (invmx P) d + qform 1%:M w =
+  qform (invmx (Phi *m P *m Phi^T + Gam *m Gam^T)) r +
+  (qform (invmx P) (d - prop_dopt P Phi Gam r) + qform 1%:M (w - prop_wopt P Phi Gam r)).
+Proof.
+move=> sP pP uPhi; split; first exact: prop_cov_pd.
+split; first exact: prop_opt_feasible.
+exact: prop_identity.
 Qed.
